@@ -98,7 +98,12 @@ impl<T: Ord> MemoryBoundedQueue<T> {
         let mut inner = self.inner.lock().unwrap();
 
         // Wait while queue would be too full
-        while inner.current_size + size_bytes > self.capacity_bytes && !inner.closed {
+        // An item larger than the whole capacity can never fit: admit it once the queue is
+        // empty (as C++ AGC's bounded queue does) instead of waiting forever.
+        while inner.current_size + size_bytes > self.capacity_bytes
+            && inner.current_size > 0
+            && !inner.closed
+        {
             inner = self.not_full.wait(inner).unwrap();
         }
 
